@@ -38,7 +38,7 @@ fn stream_bytes<'a>(m: &'a Model, path: &[String]) -> &'a [u8] {
 
 /// Runs a read-only script on `image` under the fault plan in `ctl`.
 /// `helper` is a model-only engine used for path resolution and expectations.
-pub fn run_read_script(image: &Arc<Mutex<Vec<u8>>>, helper: &Engine, max_buf: Option<u32>, strict: bool, script: &[Op], ctl: &Arc<Mutex<Ctl>>, trace: &mut Vec<String>) -> Result<ReadRunStats, Fail> {
+pub fn run_read_script(image: &Arc<Mutex<Vec<u8>>>, helper: &Engine, max_buf: Option<u32>, strict: bool, script: &[Op], ctl: &Arc<Mutex<Ctl>>, trace: &mut Vec<String>, no_retry_mask: u32) -> Result<ReadRunStats, Fail> {
     let mut st = ReadRunStats::default();
     let tries = 4;
     let mk_io = || Io { data: image.clone(), pos: 0, ctl: Some(ctl.clone()), cap: crate::backend::DEFAULT_CAP, file: None, file_path: None };
@@ -72,7 +72,8 @@ pub fn run_read_script(image: &Arc<Mutex<Vec<u8>>>, helper: &Engine, max_buf: Op
         }
     };
     let mut handles: Vec<Option<RHandle>> = (0..4).map(|_| None).collect();
-    for op in script.iter() {
+    for (oi, op) in script.iter().enumerate() {
+        let tries = if no_retry_mask >> (oi % 32) & 1 == 1 { 1 } else { tries };
         for t in 0..tries {
             let f0 = fired(ctl);
             let r = read_op(&mut c, helper, &mut handles, op, ctl, &mut st, trace);
